@@ -19,13 +19,15 @@ PROPS = {
     "C01": dict(
         domains=[("codec", "build", 12000, 150000), ("codec", "decode", 6000, 80000), ("codec", "frame", 2000, 40000)],
         relevant=["C01:"],
-        theorems=[],
+        theorems=['DV.Props.C01.C01_api_avps', 'DV.Props.C01.C01_api_reserialise', 'DV.Props.C01.C01_api_same_tree', 'DV.Props.C01.C01_api_msg', 'DV.Props.C01.C01_wire_counterexample_v4mapped', 'DV.Props.C01.C01_wire_counterexample_other16', 'DV.Props.C01.C01_wire_counterexample_other4', 'DV.Props.C01.C01_gen'],
+        gen_obligations=['Gen.HeaderLength', 'Gen.Vbit', 'Gen.rfc868offset', 'Gen.rfc2030offset', 'Gen.typeIds', 'Gen.hdrLayoutEnc = Gen.hdrLayoutDec', 'Gen.available ⊆ Gen.decoderKeys'],
         trusted=CODEC_TRUST,
     ),
     "C02": dict(
         domains=[("codec", "build", 12000, 150000)],
         relevant=["C02:"],
-        theorems=[],
+        theorems=['DV.Props.C02.C02_pad4', 'DV.Props.C02.C02_pad4_spec', 'DV.Props.C02.C02_uint24to32', 'DV.Props.C02.C02_uint32to24', 'DV.Props.C02.C02_uint24_roundtrip', 'DV.Props.C02.C02_be3_rd', 'DV.Props.C02.C02_time_enc', 'DV.Props.C02.C02_time_roundtrip', 'DV.Props.C02.C02_time_model', 'DV.Props.C02.C02_ref_enc_avps', 'DV.Props.C02.C02_ref_enc_msg', 'DV.Props.C02.C02_len_mod4', 'DV.Props.C02.C02_length', 'DV.Props.C02.C02_new_message', 'DV.Props.C02.C02_layout', 'DV.Props.C02.C02_gen', 'DV.Props.C02.C02_header_roundtrip'],
+        gen_obligations=['Gen.pad4', 'Gen.uint24to32', 'Gen.uint32to24', 'Gen.timeEnc', 'Gen.timeDecLow', 'Gen.timeDecHigh', 'Gen.hdrLayoutEnc', 'Gen.hdrLayoutDec', 'Gen.avpLayoutEnc', 'Gen.avpLayoutDec', 'Gen.rfc868offset', 'Gen.rfc2030offset'],
         trusted=CODEC_TRUST,
     ),
     "C03": dict(
